@@ -86,6 +86,18 @@ def run(ctx):
                 ctx.soft('correspondence:karatsuba-workspace', 'Karatsuba_aux size %d: highest written workspace byte is %d, the model says %d (of %d)' % (z, hw, w, u), {'tool': 'asan', 'lines': klines, 'size': z, 'impl': hw, 'model': w})
             if not right and ok: ctx.report('karatsuba-workspace', 'Karatsuba_aux size %d: result differs from the schoolbook product' % z, {'tool': 'asan', 'lines': klines})
             if u > 16 * z: ctx.report('karatsuba-workspace', 'model workspace %d exceeds 16*size for size %d' % (u, z), {'size': z})
+    # every FFT back-end under ASan: all transform / Lagrange-domain entry points once (the lifecycles above run on spqlios-fma)
+    NN = 1024
+    def rv(lo, hi): return ' '.join(str(rng.randrange(lo, hi)) for _ in range(NN))
+    flines = ['fft 0 %d %s %s' % (NN, rv(-512, 513), rv(-2**31, 2**31)), 'fft 1 %d %s %s %s' % (NN, rv(-512, 513), rv(-2**31, 2**31), rv(-2**31, 2**31)),
+              'fft 2 %d %s %s %s' % (NN, rv(-512, 513), rv(-2**31, 2**31), rv(-2**31, 2**31)), 'fft 3 %d %s' % (NN, rv(-2**31, 2**31)),
+              'fft 4 %d 2 %s %s %s %s' % (NN, rv(-512, 513), rv(-2**31, 2**31), rv(-512, 513), rv(-2**31, 2**31)), 'fft 5 %d %s %s' % (NN, rv(-2**31, 2**31), rv(-2**31, 2**31)),
+              'fft 6 %d %s 12345' % (NN, rv(-2**31, 2**31)), 'fft 7 %d 777' % NN, 'fft 8 %d' % NN, 'fft 9 %d %s %s %s' % (NN, rv(-512, 513), rv(-2**31, 2**31), rv(-2**31, 2**31)),
+              'fft 10 %d %s %s' % (NN, rv(-512, 513), rv(-2**31, 2**31)), 'fft 11 %d %s' % (NN, rv(-512, 513))]
+    for be in vlib.BACKENDS:
+        fexe = vlib.build_harness('fft_drv.cpp', blib, be, 'asan')
+        rc, out, err = run_san(fexe, flines, env, 1800)
+        judge('ASan, FFT and Lagrange-domain entry points of %s' % be, 'fft opcodes 0-11', rc, out, err, {'tool': 'asan-fft', 'backend': be, 'lines': flines})
     # ---- B: memcheck on the AVX2 build (assembly paths)
     vlibd = vlib.build_lib('vg'); vexe = vlib.build_harness('mem_drv.cpp', vlibd, 'spqlios-fma', 'vg')
     vjobs = [['small %d' % n for n in range(1, 14)] + ['small 500', 'small 1023'], [life_line((0, 3, 1, 2, 10, 8, 2), 1)], [life_line((0, 7, 2, 3, 7, 8, 2), 0)], [life_line((0, 8, 1, 16, 2, 4, 4), 1), life_line((0, 1, 1, 1, 16, 2, 2), 0)]]
@@ -154,6 +166,9 @@ def replay(ctx, data):
     if tool == 'asan':
         exe = vlib.build_harness('mem_drv.cpp', vlib.build_lib('asan'), 'spqlios-fma', 'asan')
         rc, out, err = run_san(exe, lines, dict(os.environ, ASAN_OPTIONS='detect_leaks=1:exitcode=99'), 7200); print('exit', rc, out[-200:], err[-1500:])
+    elif tool == 'asan-fft':
+        exe = vlib.build_harness('fft_drv.cpp', vlib.build_lib('asan'), data.get('backend', 'fftw'), 'asan')
+        rc, out, err = run_san(exe, lines, dict(os.environ, ASAN_OPTIONS='detect_leaks=1:exitcode=99'), 7200); print('exit', rc, err[-1500:])
     elif tool == 'memcheck':
         exe = vlib.build_harness('mem_drv.cpp', vlib.build_lib('vg'), 'spqlios-fma', 'vg')
         p = subprocess.run(['valgrind', '-q', '--error-exitcode=77', exe], input='\n'.join(lines) + '\n', capture_output=True, text=True, timeout=7200); print('exit', p.returncode, p.stderr[-1500:])
